@@ -49,3 +49,8 @@ pub fn c01_line_trailing_a4() {
         }
     }
 }
+
+// ---- deeper bounds (thorough tier) ----
+lang_kernel!(c01_comment_u6, any_utf8, 6, 8, comment, r_comment);
+lang_kernel!(c01_ws_comment_newline_a5, any_ascii, 5, 7, ws_comment_newline, r_ws_comment_newline);
+lang_kernel_total!(c01_ws_newline_a6, any_ascii, 6, 8, ws_newline, r_ws_newline);
